@@ -28,7 +28,7 @@ func (c26) ID() string { return "C26" }
 
 func (c26) Budget(tier string) int {
 	if tier == "thorough" {
-		return 40000
+		return 120000
 	}
 	return 3600
 }
@@ -38,7 +38,7 @@ func (c26) Describe() engine.Info {
 		Rule: "class progress: random machine state + generated program with DIV/LCDC/FF46 writes, HALT and STOP + key events; class stop: real Run() under SimContext with cancel-before-start / cancel at the k-th Done evaluation / cancel mid-frame at a random cycle / window close at frame k, workloads with LCD on and off, audio and video attached or not. " +
 			"Oracle progress: exactly one step per party per cycle (a guest write to DIV/LCDC/FF46 in cycle n is seen by that party's tick in cycle n: counter=4, PPU position=1, DMA progress=1), 17,556 cycles between frames handed to the display, 738..740 stereo samples per frame when sound is on. Oracle stop: Run returns having started no frame after the request was visible, the frame in flight completes, Cleanup released the display once and closed both sample channels. Signature = (class, request kind, frame phase bucket / party event kind).",
 		Assumptions:    []string{"party progress is read through the verif accessors (timer counter, PPU position, DMA progress, RTC sub-second count)", "audio progress is judged by samples per frame (black box)"},
-		RequiredProbes: []string{"timer_overflow_request_checked", "frames_counted", "guest_div_write", "guest_lcdc_on", "guest_dma_start", "cpu_stopped_cycles", "cpu_halted_cycles", "cancel_mid_frame", "cancel_at_done", "close_request", "cancel_before_start", "channels_closed"},
+		RequiredProbes: []string{"timer_overflow_request_checked", "timer_overflow_caused_by_a_guest_write", "frames_counted", "guest_div_write", "guest_lcdc_on", "guest_dma_start", "cpu_stopped_cycles", "cpu_halted_cycles", "cancel_mid_frame", "cancel_at_done", "close_request", "cancel_before_start", "channels_closed"},
 		RealComponents: realComponents, StubComponents: stubComponents,
 	}
 }
@@ -50,6 +50,21 @@ func (c26) Generate(r *engine.Rand, index int, tier string) *engine.Scenario {
 		g := &progGen{r: r, base: lsCodeWRAM, ramOnly: true}
 		g.emitStackSetup()
 		io := []uint8{0x04, 0x40, 0x46, 0x07, 0x05, 0x06}
+		if index%8 == 2 {
+			// an overflow caused by the guest's own write: DIV cleared, slowest-but-one rate (the selected
+			// counter bit is high from cycle 32 to 63), TIMA = FF while the bit is high, then a DIV write or
+			// a TAC write that stops the timer makes the signal fall: TIMA overflows in that cycle
+			g.emit(0xaf, 0xe0, 0x04, 0x3e, 0x07, 0xe0, 0x07)
+			g.filler(r.Range(20, 44))
+			g.emit(0x3e, 0xff, 0xe0, 0x05)
+			g.filler(r.Intn(6))
+			if r.Bool() {
+				g.emit(0xe0, 0x04)
+			} else {
+				g.emit(0x3e, engine.Pick(r, []uint8{0x03, 0x00, 0x05}), 0xe0, 0x07)
+			}
+			g.filler(r.Range(2, 8))
+		}
 		for i, n := 0, r.Range(6, 40); i < n; i++ {
 			switch k := r.Intn(12); {
 			case k < 4:
@@ -199,6 +214,7 @@ func (c26) progress(sc *engine.Scenario) *engine.Result {
 			}
 		}
 		_ = wroteTimer
+		ovBefore := rt.Overflows
 		for _, a := range l.ref.Acc {
 			if a.Write && a.Cycle == l.ref.Cycles && l.k == l.ref.Cycles {
 				switch a.Addr {
@@ -215,7 +231,6 @@ func (c26) progress(sc *engine.Scenario) *engine.Result {
 				}
 			}
 		}
-		ovBefore := rt.Overflows
 		rt.Tick()
 		if reqDue != 0 && rt.Cancelled {
 			reqDue = 0 // a TIMA write in the cycle after the overflow cancels the reload and the request
@@ -227,7 +242,10 @@ func (c26) progress(sc *engine.Scenario) *engine.Result {
 				fail("timer-overflow-without-request", "TIMA overflowed and was reloaded (reference timer) but IF bit 2 is not set after the reload cycle (master enable %v, IE %02x)", m.IRQ.Enabled(), m.IRQ.ReadIE())
 			}
 		}
-		if rt.Overflows != ovBefore && rt.OverflowByTick && !prevIF2 {
+		if rt.Overflows != ovBefore && !rt.OverflowByTick {
+			res.Probe("timer_overflow_caused_by_a_guest_write")
+		}
+		if rt.Overflows != ovBefore && !prevIF2 {
 			reqDue = m.N + 2 // the request flag was clear before: it must be set once the reload cycle is over
 		}
 		prevIF2 = m.IRQ.ReadIF()&4 != 0
